@@ -257,7 +257,11 @@ def sketches(repo, chk):
         a0 = c.args[0] if c.args else None
         hash_ok = isinstance(a0, ast.Call) and m.dotted(a0.func) == f'{CU}.internal_hash' and len(a0.args) == 1 and ast.unparse(a0.args[0]) in (v, f'str({v})')
         guards = [term_of(fn, i.test, inline=False) for i in ifs]
-        g_ok = all(g in (E(v), E(f"{v} != ''"), E(f'len({v}) > 0'), E(f'{v} is not None')) for g in guards)
+        empties = (E(f"{v} != ''"), E(f"not (isinstance({v}, str) and {v} == '')"), E(f"not isinstance({v}, str) or {v} != ''"), E(f'{v} is not None'), E(f"not (isinstance({v}, str) and len({v}) == 0)"))
+        truthy = [i for i, g in zip(ifs, guards) if g == E(v)]
+        if truthy:
+            chk.bad('C13.4d', 'R14', fn.site(truthy[0]), ast.unparse(truthy[0].test), f'the truthiness test `if {v}:` skips the empty string but also the numeric values 0 / 0.0 (noise control columns): a constant-zero column gets cardinality 0')
+        g_ok = all(g in empties or g == E(v) for g in guards)
         key_ok = ast.unparse(c.func.value.slice) == col
         chk.expect(dom_ok, 'C13.4b', 'R13', fn.site(lp), ast.unparse(lp.iter), 'all distinct values of the column in the batch are inserted', f'the sketch must be fed from all (distinct) values of the column; loop ranges over {show(it)[:100]}')
         chk.expect(hash_ok and key_ok, 'C13.4c', 'R6', fn.site(c), ast.unparse(c), 'value -> internal_hash(value) -> sketch of its column', 'the sketch of the column must receive internal_hash(value) of the value itself')
@@ -301,6 +305,8 @@ def writers(repo, chk):
 
 
 def hash_bytes(repo, chk):
+    """internal_hash must hand bytes to xxhash for every kind of value a frame column can hold: str from the parsers, and numpy
+    ints / floats from the noise control columns (a small type-flow over the function body: isinstance refinements, str(), .encode())."""
     fn = repo.func(CU, 'internal_hash')
     p = fn.params[0]
     cs = calls(fn, dotted=('xxhash.xxh32', 'xxhash.xxh64', 'xxhash.xxh3_64', 'xxhash.xxh128'))
@@ -308,16 +314,91 @@ def hash_bytes(repo, chk):
         chk.unsure('C13.4e', 'API', fn.site(), 'xxhash.xxh32(...)', 'digest constructor not found')
         return
     c = cs[0]
-    a0 = c.args[0] if c.args else None
-    enc_direct = isinstance(a0, ast.Call) and isinstance(a0.func, ast.Attribute) and a0.func.attr == 'encode'
-    enc_before = False
-    for n in own_nodes(fn.node):
-        if isinstance(n, ast.If) and 'isinstance' in ast.unparse(n.test) and 'str' in ast.unparse(n.test):
-            for s in n.body:
-                if isinstance(s, ast.Assign) and isinstance(s.targets[0], ast.Name) and isinstance(a0, ast.Name) and s.targets[0].id == a0.id and '.encode(' in ast.unparse(s.value):
-                    enc_before = True
+    # what the cardinality step passes in
+    card = repo.func(CR, 'compute_cardinalities')
+    incoming = set()
+    for cc in calls(card):
+        if card.module.dotted(cc.func) == f'{CU}.internal_hash' and cc.args:
+            a = cc.args[0]
+            incoming |= {'str'} if (isinstance(a, ast.Call) and isinstance(a.func, ast.Name) and a.func.id == 'str') else {'str', 'int', 'float'}
+    if not incoming:
+        incoming = {'str', 'int', 'float'}
+    problems = []
+    unknown = []
+
+    def types_of(test):
+        """(negated, names) for isinstance(p, T) / not isinstance(p, T)"""
+        neg = False
+        while isinstance(test, ast.UnaryOp) and isinstance(test.op, ast.Not):
+            neg, test = not neg, test.operand
+        if isinstance(test, ast.Call) and isinstance(test.func, ast.Name) and test.func.id == 'isinstance' and len(test.args) == 2 and isinstance(test.args[0], ast.Name) and test.args[0].id == p:
+            t = test.args[1]
+            names = {ast.unparse(x) for x in (t.elts if isinstance(t, ast.Tuple) else [t])}
+            return neg, names
+        return None
+
+    def value_type(e, types):
+        if isinstance(e, ast.Name) and e.id == p:
+            return set(types)
+        if isinstance(e, ast.Call) and isinstance(e.func, ast.Name) and e.func.id in ('str', 'repr') and len(e.args) == 1:
+            return {'str'}
+        if isinstance(e, ast.Call) and isinstance(e.func, ast.Name) and e.func.id == 'bytes':
+            return {'bytes'}
+        if isinstance(e, ast.Call) and isinstance(e.func, ast.Attribute) and e.func.attr == 'encode':
+            base = value_type(e.func.value, types)
+            if base is None:
+                return None
+            bad = base - {'str'}
+            if bad:
+                problems.append((e, f'.encode() is applied to a value that may be {sorted(bad)} (AttributeError)'))
+            return {'bytes'}
+        if isinstance(e, ast.JoinedStr):
+            return {'str'}
+        return None
+
+    def flow(stmts, types):
+        for st in stmts:
+            if isinstance(st, ast.Expr) and isinstance(st.value, ast.Constant):
+                continue
+            if isinstance(st, ast.If):
+                r = types_of(st.test)
+                if r is None:
+                    unknown.append(st)
+                    t1 = flow(st.body, set(types))
+                    t2 = flow(st.orelse, set(types))
+                    types = t1 | t2
+                    continue
+                neg, names = r
+                inside = {t for t in types if t in names}
+                tb, fb = (types - inside, inside) if neg else (inside, types - inside)
+                t1 = flow(st.body, tb) if tb else set()
+                t2 = flow(st.orelse, fb) if fb else set()
+                types = t1 | t2
+                continue
+            if isinstance(st, ast.Assign) and len(st.targets) == 1 and isinstance(st.targets[0], ast.Name) and st.targets[0].id == p:
+                vt = value_type(st.value, types)
+                if vt is None:
+                    unknown.append(st)
+                    vt = set(types)
+                types = vt
+                continue
+            for call in [n for n in ast.walk(st) if n is c]:
+                a0 = call.args[0] if call.args else None
+                vt = value_type(a0, types) if a0 is not None else None
+                if vt is None:
+                    unknown.append(st)
+                else:
+                    bad = vt - {'bytes'}
+                    if bad:
+                        problems.append((call, f'xxhash receives a value that may be {sorted(bad)} (TypeError: str must be encoded, numbers converted with str() first)'))
+        return types
+    flow(fn.node.body, set(incoming))
+    if unknown and not problems:
+        chk.unsure('C13.4e', 'R16', fn.site(unknown[0]), ast.unparse(unknown[0])[:100], 'statement outside the type-flow vocabulary (isinstance tests, str(), .encode())')
+    else:
+        chk.expect(not problems, 'C13.4e', 'R16', fn.site(problems[0][0]) if problems else fn.site(c), ast.unparse(c), f'values of kind {sorted(incoming)} all reach xxhash as bytes',
+                   (problems[0][1] if problems else '') + ': the cardinality sketches cannot be updated for such a column (numeric noise controls / str values)')
     seed = [k for k in c.keywords if k.arg == 'seed']
-    chk.expect(enc_direct or enc_before, 'C13.4e', 'API', fn.site(c), ast.unparse(c), 'str values are encoded to bytes before hashing', 'xxhash >= 4 raises TypeError on str input: the cardinality sketches cannot be updated')
     chk.expect(bool(seed) and isinstance(seed[0].value, ast.Constant), 'C13.4f', 'R8', fn.site(c), ast.unparse(c), 'constant seed: the hash of a value is the same in every batch and process', 'internal_hash must use a constant seed (same value -> same hash in every batch)')
 
 
